@@ -59,7 +59,10 @@ CLAIMED = {
          "in order (loop invariant over any number of components of the 13 kinds); every nested blueprint is queued with exactly the chain "
          "as it stood where it was nested (a copy: later registrations of the parent or of a sibling cannot reach it); the fallback gets the "
          "chain after the last component; the ids in a chain denote those very registrations (kind + annotation coordinates); entries "
-         "recorded earlier are never rewritten. The whole-tree statement is checked by a bounded model-based native search (labelled bounded)."),
+         "recorded earlier are never rewritten. The NEXT stage is under contract too (unit c05_translate): "
+         "ComponentDb::compute_request2middleware_chain translates each handler's chain of user components to component ids IN ORDER, "
+         "dropping only the members that have no component id, behind one synthetic no-op wrapping middleware; no handler's entry is "
+         "overwritten by another's. The whole-tree statement is checked by a bounded model-based native search (labelled bounded)."),
    note=("NOT decided — and this is most of C05: the ORDER in which the attached middlewares and the handler RUN, early returns, "
          "post-processors captured by a wrapping scope: stage functions emitted by processing_pipeline/codegen.rs and the stage grouping of "
          "RequestHandlerPipeline::new, i.e. the emitted program (DESIGN §1.3). The induction from 'one level + hand-over through the "
@@ -72,7 +75,9 @@ CLAIMED = {
          "functions as C05 (obligations tagged @C06): per blueprint level every route and the fallback are recorded with exactly the observer "
          "chain handed in plus the observers registered BEFORE them at this level, in order; nested blueprints are queued with a copy of "
          "the chain as it stood; process_error_observer appends exactly the interned observer; no other function touches the observer "
-         "table. The whole-tree statement is checked by the same bounded model-based native search (labelled bounded)."),
+         "table; the next stage, ComponentDb::compute_request2error_observer_chain, translates each handler's observer chain to component "
+         "ids in order, dropping only the members without a component id. The whole-tree statement is checked by the same bounded "
+         "model-based native search (labelled bounded)."),
    note=("NOT decided — and this is most of C06: that nothing depending on an Ok value runs after an Err, that the right error handler runs "
          "exactly once, that observers run after it and before the response leaves: match-branch injection in core_graph.rs over ComponentDb "
          "and `Err(e) => return` arms of the emitted program (DESIGN §1.3). Same assumptions as C05."),
